@@ -1,7 +1,9 @@
 mod c48;
+mod c49;
+mod c50;
 mod c51;
 mod util;
 
 fn main() {
-    vmon::run_main(&[("C48", c48::run), ("C51", c51::run)]);
+    vmon::run_main(&[("C48", c48::run), ("C49", c49::run), ("C50", c50::run), ("C51", c51::run)]);
 }
